@@ -777,7 +777,7 @@ def run(rep, tier, rng):
     thorough = tier == "thorough"
     deep = is_deep()
     rep.extra["deep_setting"] = deep
-    K = 600 if thorough else (160 if deep else 110)
+    K = 2500 if thorough else (160 if deep else 110)
     cases = load_corpus(PROP) + build_cases(T, rng, K)
     done, convs = run_impl(T, cases, rep, PROP)
     oracle_error = None
